@@ -131,6 +131,9 @@ func init() {
 func checkSelectedWithDuplicates(x *Ctx, c *SchedCase, have map[string]bool) {
 	env := newSchedEnv()
 	tg, err := install(c, env)
+	if err == nil {
+		err = tg.applyBuilds(c, c.buildsBeforePrior(), len(c.Builds))
+	}
 	if err != nil {
 		x.Violation("install", "valid generated rule text was rejected: %v", err)
 		return
